@@ -3,6 +3,8 @@ import VaxisModel.Model.TextInput
 import VaxisModel.Spec.Editor
 import VaxisModel.Lemmas.Editor
 import VaxisModel.Lemmas.TextInput
+import VaxisModel.Lemmas.EditorCl
+import VaxisModel.Lemmas.TextInputCl
 import VaxisModel.Gen.EditorKeys
 
 /-! C17 — line editors behave like an ideal grapheme line editor.
@@ -121,6 +123,121 @@ with a 2-column prompt shows the cursor in column 5. -/
 example :
     (match TextInput.draw (fun g : Nat => if g = 3 then 2 else 1) (TextInput.setContent TextInput.new [3, 0]) [0, 0] 12 with
      | .shown _ c => c | _ => -1) = 5 := by decide
+
+/-! ### Texts whose graphemes can merge (combining marks, joiners, variation selectors, flags, jamo)
+
+The theorems above treat a text as a list of graphemes that never merge (`Model.TextField`,
+`Model.TextInput`).  The ones below are about the same code over a text of atoms (code points) with a
+segmentation `cl` (uniseg in the widgets) that is only asked to be a `Segmentation`; the ideal editor
+is `Spec.Editor.applyC`: the grapheme editor followed by re-segmentation, cursor behind the text it
+was behind.  They are true since the F217 (TextField) and F317 (textinput) fixes. -/
+
+open VaxisModel.Lemmas.EditorCl VaxisModel.Lemmas.TextInputCl
+
+/-- The hypotheses on the segmentation are satisfiable, by the segmentation that never merges (the
+setting of the theorems above) and by one that merges everything (a text of marks that all join). -/
+theorem segmentation_instances {A : Type} :
+    Segmentation (singletons (A := A)) ∧ Segmentation (oneCluster (A := A)) :=
+  ⟨singletons_seg, oneCluster_seg⟩
+
+/-- `textfield_refines` over merging graphemes (one step): from a state with `n` = grapheme count and
+the cursor within the text, every operation of the exported API keeps that and is exactly the ideal
+operation followed by re-segmentation: the widget holds the same text, segmented the same way, the
+cursor at the same grapheme index — also when the typed string joins the grapheme before or after
+it, or a deletion brings two parts of a grapheme together. -/
+theorem textfield_step_refines_clustered {A : Type} [DecidableEq A] (cl : List A → List (List A))
+    (hs : Segmentation cl) (isWord : List A → Bool) (tf : TextFieldCl.TF A) (op : TFOpC A) (h : InvC cl tf) :
+    InvC cl (tfStepC cl tf op).1 ∧ absC cl (tfStepC cl tf op).1 = applyC cl isWord (absC cl tf) (specOfC cl op) :=
+  tfStepC_refines isWord hs tf op h
+
+/-- `textfield_refines` over merging graphemes: all histories from any starting content. -/
+theorem textfield_refines_clustered {A : Type} [DecidableEq A] (cl : List A → List (List A))
+    (hs : Segmentation cl) (isWord : List A → Bool) (start : List A) (ops : List (TFOpC A)) :
+    let tf := tfRunC cl (TextFieldCl.insertString cl TextFieldCl.new start) ops
+    absC cl tf = runC cl isWord ⟨cl start, (cl start).length⟩ (ops.map (specOfC cl)) ∧
+      tf.cursor ≤ (cl tf.value).length ∧ tf.n = (cl tf.value).length := by
+  intro tf
+  have h0 : InvC cl (TextFieldCl.new : TextFieldCl.TF A) := by
+    simp [InvC, TextFieldCl.new, cl_nil hs]
+  have h1 := insert_refinesC isWord hs TextFieldCl.new start h0
+  have h2 := tfRunC_refines isWord hs ops _ h1.1
+  refine ⟨?_, h2.1.2, h2.1.1⟩
+  rw [h2.2, h1.2]
+  congr 1
+  have hnil : (cl ([] : List A)) = [] := cl_nil hs
+  simp only [applyC, apply, absC, TextFieldCl.new, hnil, List.take_nil, List.drop_nil, List.nil_append,
+    List.append_nil, List.length_nil, Nat.zero_add]
+  have := resegment_id hs start (cl start).length (Nat.le_refl _)
+  exact this
+
+/-- `callbacks_exact` over merging graphemes: OnSubmit iff Enter (with the line), OnChange iff the
+text changed (with the new text). -/
+theorem textfield_callbacks_exact_clustered {A : Type} [DecidableEq A] (cl : List A → List (List A))
+    (hs : Segmentation cl) (isWord : List A → Bool) (tf : TextFieldCl.TF A) (ev : TextField.KeyEv A) (h : InvC cl tf) :
+    (TextFieldCl.handleKey cl tf ev).2.map (absCallC cl) = callbacksC cl isWord (absC cl tf) (meaningOfC cl ev) :=
+  (handleKey_refinesC isWord hs tf ev h).2.2
+
+/-- `cursor_column` over merging graphemes: the drawn cursor column is the display width of the
+graphemes before the cursor. -/
+theorem textfield_cursor_column_clustered {A : Type} (cl : List A → List (List A)) (width : List A → Nat)
+    (tf : TextFieldCl.TF A) :
+    TextFieldCl.drawCursorCol cl width tf = UInt16.ofNat (widthSum width ((absC cl tf).text.take (absC cl tf).cursor)) :=
+  drawCursorCol_eq width _
+
+/-- The F217 scenario on the fixed code, with a segmentation in which atom 9 joins whatever is
+before it: "ab", cursor to 1, type the mark, type "x" gives a+mark, x, b with the cursor behind x
+(before the fix: a+mark, b, x). -/
+example :
+    let cl : List Nat → List (List Nat) := fun x => if x = [0, 9, 1] then [[0, 9], [1]] else
+      if x = [0, 9] then [[0, 9]] else if x = [0, 9, 7, 1] then [[0, 9], [7], [1]] else
+      if x = [0, 9, 7] then [[0, 9], [7]] else singletons x
+    let ty (g : Nat) : TextField.KeyEv Nat := ⟨false, [g], false, false, false, false, false, false, false, false⟩
+    let tf := tfRunC cl (TextFieldCl.insertString cl TextFieldCl.new [0, 1]) [.cur 1, .key (ty 9), .key (ty 7)]
+    (tf.value, tf.cursor, tf.n) = ([0, 9, 7, 1], 2, 3) := by decide
+
+/-- Non-vacuity with a `Segmentation` that merges: under `oneCluster` typing two atoms one after the
+other leaves one grapheme and the cursor at 1. -/
+example :
+    let ty (g : Nat) : TextField.KeyEv Nat := ⟨false, [g], false, false, false, false, false, false, false, false⟩
+    let tf := tfRunC oneCluster (TextFieldCl.new : TextFieldCl.TF Nat) [.key (ty 0), .key (ty 9)]
+    (tf.value, tf.cursor, tf.n) = ([0, 9], 1, 1) := by decide
+
+/-- `textinput_refines` over merging graphemes (one step): from a state with the cursor within the
+content, a non-negative offset and the content segmented as its text is, every call of the textinput
+API returns (no panic, no hang), keeps that, and is exactly the ideal operation followed by
+re-segmentation. -/
+theorem textinput_step_refines_clustered {A : Type} (cl : List A → List (List A)) (hs : Segmentation cl)
+    (isAlnum : List A → Bool) (width : List A → Int) (m : TextInputCl.TIC A) (op : TIOpC A) (h : TIInvC cl m) :
+    ∃ m', tiStepC isAlnum cl width m op = some m' ∧ TIInvC cl m' ∧
+      tiAbsC m' = applyC cl isAlnum (tiAbsC m) (tiOpSpecC cl m op) :=
+  tiStepC_refines isAlnum hs width m op h
+
+/-- `textinput_refines` over merging graphemes: all histories from any starting content. -/
+theorem textinput_refines_clustered {A : Type} (cl : List A → List (List A)) (hs : Segmentation cl)
+    (isAlnum : List A → Bool) (width : List A → Int) (start : List A) (ops : List (TIOpC A)) :
+    ∃ mf sops, tiRunC isAlnum cl width (TextInputCl.setContent cl TextInputCl.new start) ops = some (mf, sops) ∧
+      tiAbsC mf = runC cl isAlnum ⟨cl start, (cl start).length⟩ sops ∧
+      0 ≤ mf.cursor ∧ mf.cursor ≤ mf.content.length ∧ mf.content = cl mf.content.flatten := by
+  have h0 : TIInvC cl (TextInputCl.setContent cl (TextInputCl.new : TextInputCl.TIC A) start) :=
+    ⟨⟨by simp [TextInputCl.setContent, TextInputCl.toG], by simp [TextInputCl.setContent, TextInputCl.toG],
+      by simp [TextInputCl.setContent, TextInputCl.new, TextInputCl.toG]⟩,
+     by simp [TextInputCl.setContent, hs.flatten]⟩
+  obtain ⟨mf, sops, hr, hinv, habs⟩ := tiRunC_refines isAlnum hs width ops _ h0
+  refine ⟨mf, sops, hr, ?_, hinv.1.1, hinv.1.2.1, hinv.2⟩
+  rw [habs]
+  simp [tiAbsC, TextInputCl.setContent, TextInputCl.new]
+
+/-- The F317 scenario on the fixed code under `oneCluster`: type an atom, type a second one that
+joins it — one character, cursor 1; BackSpace then deletes the whole grapheme (before the fix: two
+characters, cursor 2, BackSpace left the first atom). -/
+example :
+    (tiRunC (fun _ => false) oneCluster (fun _ => 1) (TextInputCl.new : TextInputCl.TIC Nat)
+      [.ev (.key "e" false false false [0]), .ev (.key "x" false false false [9])]).map
+        (fun r => (r.1.content, r.1.cursor)) = some ([[0, 9]], 1) ∧
+    (tiRunC (fun _ => false) oneCluster (fun _ => 1) (TextInputCl.new : TextInputCl.TIC Nat)
+      [.ev (.key "e" false false false [0]), .ev (.key "x" false false false [9]),
+       .ev (.key "BackSpace" false false false [])]).map
+        (fun r => (r.1.content, r.1.cursor)) = some ([], 0) := by decide
 
 /-! ### Tie to the source through the extractor (`Gen/EditorKeys.lean`, regenerated every run) -/
 
